@@ -56,7 +56,7 @@ def showResult (r : Result) : String :=
     (if r.cleartextWrites.isEmpty then "-" else ",".intercalate (r.cleartextWrites.map hexOf)) ++
     " tls=" ++ (if r.hasTls then "1" else "0")
 
-/-- `tls.run <scheme> <starttls> <no_verify> <connector> <conn_timeout> <readfirst> <chunks> <end> <hs> <cert>` -/
+/-- `tls.run <scheme> <starttls> <no_verify> <connector> <conn_timeout> <early> <chunks> <end> <hs> <cert>` -/
 def run (arg : String) : Option String :=
   match arg.splitOn " " with
   | [sc, st, nv, cn, to, rf, ch, en, hs, ce] => do
@@ -65,13 +65,13 @@ def run (arg : String) : Option String :=
     let noVerify ← parseBool nv
     let connector ← parseConnector cn
     let connTimeout ← parseBool to
-    let readFirst ← parseBool rf
+    let early ← rf.toNat?
     let chunks ← parseChunks ch
     let atEnd ← parseEnd en
     let h ← parseHs hs
     let certOk ← parseCert ce
     let c : Cfg := { scheme, starttls, noVerify, connector, connTimeout }
-    let s : Server := { readFirst, chunks, atEnd, peer := ⟨h, certOk⟩ }
+    let s : Server := { early, chunks, atEnd, peer := ⟨h, certOk⟩ }
     some (showResult (establish refLib c s))
   | _ => none
 
